@@ -417,6 +417,15 @@ type loopInfo struct {
 	noBreak bool // contract: the loop is left only through its header test (every element is visited)
 	decr    []*loopDecr
 	decrPending []*loopDecr
+	steps   []*loopStep
+	hv      map[*ssa.Phi]Value // the phi values of the arbitrary iteration (header)
+}
+
+// loopStep: a relation that one iteration establishes between the values of the loop variables before
+// it (prev(x)) and after it.
+type loopStep struct {
+	name string
+	eval func(now, before map[*ssa.Phi]Value, st *State, point ssa.Instruction) *Term
 }
 
 // loopDecr: a measure that every iteration strictly decreases and that is non-negative whenever the body is entered
@@ -559,6 +568,7 @@ func (e *Exec) loopHeader(fr *Frame, h *ssa.BasicBlock, st *State, fwd []edge, b
 		d.old = e.def(SInt, d.eval(hv, st))
 		li.decr = append(li.decr, d)
 	}
+	li.hv = hv
 	if c != nil {
 		for _, k := range c.FullLoops {
 			if strings.Contains(li.key, k) || strings.Contains(loopKeyNamed(h), k) {
@@ -617,6 +627,9 @@ func (e *Exec) backEdge(fr *Frame, from, h *ssa.BasicBlock, st *State) {
 			break
 		}
 		vals[phi] = e.phiEdgeValue(fr, phi, h, from)
+	}
+	for _, sp := range li.steps {
+		e.oblige(st, "step", fr.path+li.key+":"+sp.name, sp.eval(vals, li.hv, st, from.Instrs[len(from.Instrs)-1]), e.posOf(h.Instrs[0]))
 	}
 	for _, d := range li.decr {
 		nv := d.eval(vals, st)
